@@ -321,12 +321,14 @@ inductive Update where
   | genericStep   -- Qmc::timestep
   | isingSteps    -- QmcStepper::timesteps(t, β) and friends on the Ising sampler; TemperingContainer::timesteps
   | genericSteps  -- the same on the generic sampler
+  | restore       -- serde round trip of a sampler / manager / tempering container: no pool event; the
+                  -- restored object's free lists are rebuilt from the stored counts (`restoreFree` below)
   | noPool        -- tempering_step / swap_manager_and_state / flip_free_bits / set_cutoff / getters
   deriving DecidableEq, Repr, Inhabited
 
 def Update.all : List Update :=
   [.diag, .heatbath, .cluster, .loopUpdate, .rvb, .install, .sweepOpsAll, .sweepOpsVar,
-   .sweepPsVar, .sweepAllArgs, .isingStep, .genericStep, .isingSteps, .genericSteps, .noPool]
+   .sweepPsVar, .sweepAllArgs, .isingStep, .genericStep, .isingSteps, .genericSteps, .restore, .noPool]
 
 def grammar : Update → G
   | .diag => sweepPs
@@ -343,6 +345,7 @@ def grammar : Update → G
   | .genericStep => genericStep
   | .isingSteps => .star isingStep
   | .genericSteps => .star genericStep
+  | .restore => .eps
   | .noPool => .eps
 
 /-- Everything a history of public calls can do to the pool. -/
@@ -363,6 +366,7 @@ def Update.ofString? : String → Option Update
   | "gstep" => some .genericStep
   | "isteps" => some .isingSteps
   | "gsteps" => some .genericSteps
+  | "restore" => some .restore
   | "nopool" => some .noPool
   | _ => none
 
@@ -474,5 +478,20 @@ def Buf.Ok : Buf → Prop
 /-- The free list of one allocator with contents; `return_instance` resets then pushes,
 `get_instance` pops. -/
 def retBuf (free : List Buf) (b : Buf) : List Buf := b.reset :: free
+
+/-! ## snapshot / restore of a free list (`util/allocator.rs` `numeric_serialize`) -/
+
+/-- `T::default()` for the three shapes of pooled buffer. -/
+def Buf.dflt : Ty → Buf
+  | .bcUsize => .bc BC.new
+  | .bcVarPos => .bc BC.new
+  | .heap => .heap 0
+  | _ => .vec 0
+
+/-- `numeric_serialize::serialize`: only the number of free instances is stored. -/
+def snapshotFree (free : List Buf) : Nat := free.length
+
+/-- `numeric_serialize::deserialize`: `(0..s).map(|_| T::default()).collect()`. -/
+def restoreFree (t : Ty) (n : Nat) : List Buf := List.replicate n (Buf.dflt t)
 
 end Qmc.Pool
